@@ -361,6 +361,35 @@ func c07Collect(c *Ctx, p *Prog, m *Model) {
 				}
 			}
 		}
+		// pairing: the name a context value is stored under is computed from the very key it was looked up with
+		// (not from a parallel table that another method has to keep in step)
+		{
+			te := newTermEval(p)
+			effs := te.effectsOf(fc, privateHelper(p))
+			nPairs := 0
+			for _, ev := range effs {
+				if ev.Struct != "kvp" || ev.Field != "val" || ev.Val.Op != "invoke" || ev.Val.Name != "Value" || len(ev.Val.Args) < 2 {
+					continue
+				}
+				looked := ev.Val.Args[1].String()
+				for _, ek := range effs {
+					if ek.Struct == "kvp" && ek.Field == "key" && ek.Base.V == ev.Base.V {
+						nPairs++
+						for _, alt := range ek.Val.alts() {
+							if alt.Op == "const" && (alt.Name == `""` || strings.HasPrefix(alt.Name, "zero:")) {
+								continue // the helper's "not a usable key" result (path-insensitive term)
+							}
+							if !alt.contains(func(t *Term) bool { return t.String() == looked }) {
+								probs = append(probs, "a context value looked up with "+looked+" is stored under a name not computed from that key ("+alt.String()+")")
+							}
+						}
+					}
+				}
+			}
+			if nPairs == 0 {
+				probs = append(probs, "no (name, ctx.Value(key)) pair is built")
+			}
+		}
 		if nAppend < 1 || !hasStr || !hasStringer {
 			probs = append(probs, "string and Stringer keys are not both handled")
 		}
